@@ -5,9 +5,10 @@
 set -u
 name="$1"; shift
 checks="$*"
-# second-campaign seeds live in /tmp/seed2-<Cnn> and are stored as <Cnn>-b
+# second-campaign seeds live in /tmp/seed2-<Cnn> and are stored as <Cnn>-b, third-campaign seeds in /tmp/seed3-<Cnn> as <Cnn>-c
 case "$name" in
   *-b) base="${name%-b}"; wt=/tmp/seed2-$base; out=/tmp/seed2-$base-out ;;
+  *-c) base="${name%-c}"; wt=/tmp/seed3-$base; out=/tmp/seed3-$base-out ;;
   *)   wt=/tmp/seed-$name; out=/tmp/seed-$name-out ;;
 esac
 dst=/verif/seeded/$name
